@@ -94,6 +94,15 @@ def semantic_texts(seed, quick):
         ('recursive/match', 'root packet A { u8 K, match K as Body { 1 : A, }, }'),
         ('recursive/inline', 'root packet A { In { A Again, }, }'),
         ('recursive/three', 'root packet A { B Bb, }\npacket B { C Cc, }\npacket C { A Aa, }'),
+        # TLV-style nesting: a packet reaches itself only through a match alternative that is NOT the first pair. The sample-value
+        # emitters follow the first pair only, so the unchanged tree compiles these; no recorded finding covers them (round 7, C11l)
+        ('nesting/match-later-pair-self', 'root packet A { u8 K, match K as Body { 1 : L, 2 : A, }, }\npacket L { u32 V, }'),
+        ('nesting/match-later-pair-group', 'root packet F { u16 Len @lengthOf(Body), u8 K, match K as Body { 1 : L, 2 : G, }, }\npacket L { u32 V, }\n'
+                                           'packet G { u8 K2, match K2 as Item { 1 : L, 2 : G, }, }'),
+        ('nesting/match-later-pair-mutual', 'root packet A { u8 K, match K as Body { 1 : L, 2 : B, }, }\npacket L { u8 V, }\n'
+                                            'packet B { u8 K2, match K2 as Inner { 1 : L, 2 : A, 3 : B, }, }'),
+        ('nesting/match-later-pair-list', 'root packet A { string K, match K as Body { "l" : L, ["a", "b"] : A, }, }\npacket L { }'),
+        ('nesting/match-later-pair-via-object', 'root packet A { u8 K, match K as Body { 1 : L, 2 : W, }, }\npacket L { u8 V, }\npacket W { u8 N, repeat L Ls, Tail { u8 K3, match K3 as P { 1 : L, 7 : A, }, }, }'),
         ('noroot/multi', 'packet A { u8 X, B Bb, }\npacket B { string S, }'),
         ('noroot/match', 'packet A { u8 K, match K as Body { 1 : B, }, }\npacket B { }'),
         ('root-only-empty', 'root packet A { }'),
